@@ -47,6 +47,7 @@ structure Entry where
   xattrs : List (Str × Option Str) := []
   hasCapsXattr : Option Bool := none
   arc : Option ArcInfo := none
+  unreadable : Bool := false       -- the content cannot be opened (permission denied, dangling link)
   deriving Repr
 
 structure Config where
@@ -248,7 +249,8 @@ def fileFn (e? : Option Entry) (f : Function) (arg : Str) : Option (EM Variant) 
       | some e => if e.arc.isSome then .ok (.empty .bool) else
         match e.text with
         | some t => .ok (.ofBool (containsSub t arg))
-        | none => if e.kind == 'f' || e.kind == 'l' then .error (.unsupported "contains: content not in snapshot") else .ok (.empty .bool)
+        | none => if e.unreadable then .ok (.empty .bool) else
+          if e.kind == 'f' || e.kind == 'l' then .error (.unsupported "contains: content not in snapshot") else .ok (.empty .bool)
       | none => .ok (.empty .bool))
   | .HasXattr =>
     some (match e? with
